@@ -736,7 +736,7 @@ def _st_default(draw, tspec, kind):
     if kind in ("dataclass", "attrs") and draw(st.booleans()):
         # factories with a known literal (list, dict, tuple, str, bytes) get special treatment in generated code
         if base[0] in ("any", "object"):
-            return ["f", draw(st.sampled_from(["list", "dict", "str", "tuple"]))]
+            return ["f", draw(st.sampled_from(["list", "dict", "str"]))]  # JSON-stable values only (Any is passed as is)
         if base[0] in ("str", "literalstring"):
             return ["f", "str"]
         if base[0] in ("bytes", "bytestring"):
